@@ -58,6 +58,8 @@ def gen_obj(rng):
         obj['tuples'] = True
     if kind == 'ct_on' and rng.random() < 0.4:
         obj['repeat'] = True
+    if kind == 'dt_off' and rng.random() < 0.4:
+        obj['explain'] = True
     if kind in ('dt_off', 'ct_off') and len(names) >= 2 and rng.random() < 0.4:
         obj['poison'] = rng.choice(names)
         obj['reps'] = max(obj['reps'], 2)
@@ -141,9 +143,31 @@ def build_args(obj, spec, tw=None, label='arg'):
                            label + '.' + k)], label + '.entry') for k in names)
 
 
+def api_of(obj):
+    if obj['kind'] == 'dt_off' and obj.get('explain'):
+        return 'dt_off'                # the offline-only class carries the explainer
+    return {'dt_off': 'dt', 'dt_on': 'dt', 'ct_off': 'ct', 'ct_on': 'ct'}[obj['kind']]
+
+
+def do_explain(m):
+    try:
+        m.explain()
+        return None
+    except Exception as e:
+        return 'explain raised %s' % type(e).__name__
+
+
+def read_explanations(m):
+    try:
+        ex = m.spec.explainer.explanations
+        return sorted((str(getattr(k, 'name', k)), repr(v)) for k, v in ex.items())
+    except Exception as e:
+        return 'reading explanations raised %s' % type(e).__name__
+
+
 def run_solo(obj):
     try:
-        m = drive.Mon({'dt_off': 'dt', 'dt_on': 'dt', 'ct_off': 'ct', 'ct_on': 'ct'}[obj['kind']], obj_sd(obj))
+        m = drive.Mon(api_of(obj), obj_sd(obj))
     except Exception as e:
         return ['parse raised %s' % type(e).__name__]
     out = []
@@ -152,6 +176,9 @@ def run_solo(obj):
             out.append(monitors.plain(getattr(m, meth)(*build_args(obj, spec))))
         except Exception as e:
             out.append('raised %s' % type(e).__name__)
+    if obj.get('explain'):
+        out.append(do_explain(m))
+        out.append(read_explanations(m))
     return out
 
 
@@ -166,6 +193,7 @@ def workload_digest(seed, count):
 
 class C11(Prop):
     id = 'C11'
+    reparse_histories = False      # explanations (part of the compared results) also cover earlier parse() calls
     struct_inputs = False          # the arguments of the workload are compared before/after the call
     rule_added = "Some pairs of objects share the interval text and have sampling periods with the same number and another unit; 40% of multi-variable offline purity cases insert a poisoned call (one variable without numbers) between repetitions. 25% of discrete offline purity cases with tuple columns; identity of the caller's dictionary entries is compared. Cross-process groups by kind (random / confusable periods / dense units / discrete units). 40% of the dense online objects re-send the frontier sample at the start of their second batch."
     rule = ('(1) purity: one spec of each monitor kind is run on generated data passed as tripwire lists/dicts; the '
@@ -274,9 +302,8 @@ class C11(Prop):
         v.info['isolation:%d-objects' % len(objs)] = 1
         self.__dict__.setdefault('_orders', set()).add((tuple(case['order']), tuple(o['kind'] for o in objs)))
         solo = [run_solo(o) for o in objs]
-        api = {'dt_off': 'dt', 'dt_on': 'dt', 'ct_off': 'ct', 'ct_on': 'ct'}
         try:
-            ms = [drive.Mon(api[o['kind']], obj_sd(o)) for o in objs]
+            ms = [drive.Mon(api_of(o), obj_sd(o)) for o in objs]
         except Exception:
             v.skip = 'parse raised'
             return v
@@ -297,6 +324,15 @@ class C11(Prop):
                 got[i].append(monitors.plain(getattr(ms[i], meth)(*args)))
             except Exception as e:
                 got[i].append('raised %s' % type(e).__name__)
+        # explanations: all objects are explained first, the explanations are read afterwards (the report is
+        # built at the end)
+        for i, o in enumerate(objs):
+            if o.get('explain'):
+                got[i].append(do_explain(ms[i]))
+        for i, o in enumerate(objs):
+            if o.get('explain'):
+                got[i].append(read_explanations(ms[i]))
+                v.info['isolation:explanations-read-at-the-end'] = 1
         for i, o in enumerate(objs):
             if not monitors.same_plain(solo[i], got[i]):
                 v.bad('interference', 'object %d (%s, %s) returns %s when its calls are interleaved with %d other '
